@@ -239,7 +239,18 @@ fn int_data<T: IntVal>(len: usize, rng: &mut Rng) -> Vec<T> {
             1 => T::from_bits(j as u128),
             _ => {
                 let bits = ((rng.next_u64() as u128) << 64) | rng.next_u64() as u128;
-                T::from_bits(bits >> rng.below(128))
+                let v = bits >> rng.below(128);
+                if rng.chance(1, 3) {
+                    // decimal structure: a few leading digits, then a long run of zeros (or nines), then a few digits
+                    let g = 1 + rng.below(30) as u32;
+                    let pg = 10u128.pow(g);
+                    let low = rng.below(1000) as u128 % pg;
+                    let hi = (v / pg) % 1000 + 1;
+                    let cand = hi.wrapping_mul(pg).wrapping_add(if rng.chance(1, 2) { low } else { pg - 1 - low });
+                    T::from_bits(cand)
+                } else {
+                    T::from_bits(v)
+                }
             }
         })
         .collect()
@@ -800,6 +811,43 @@ fn run_shape<const D: usize>(dims: [usize; D], cx: &mut Cx) {
         cx.rep.inc("eq_true_checks");
         if !e1 || !e2 || n1 || !r1 {
             cx.viol("eq_same", Json::obj().set("a==b", e1).set("b==a", e2).set("a!=b", n1).set("a==a", r1));
+        }
+        // elements that are not equal to themselves: a tensor holding a NaN is not equal to itself (nor to its clone)
+        {
+            let mut fd: Vec<f64> = data.iter().map(|&x| x as f64).collect();
+            fd[len / 2] = f64::NAN;
+            let t = call!(cx, "from_vec", Tensor::from_vec(dims, fd));
+            let (s1, s2) = (call!(cx, "eq", t == t), call!(cx, "eq", t == t.clone()));
+            cx.rep.inc("eq_nan_checks");
+            if s1 || s2 {
+                cx.viol("eq_nan", Json::obj().set("what", "a tensor with a NaN element compares equal (to itself / to its clone) although that element does not").set("t==t", s1).set("t==clone", s2));
+            }
+        }
+        // zero-sized elements: all such tensors share one (dangling) data pointer; shape still decides
+        {
+            let z = call!(cx, "new", Tensor::<(), D>::new(dims, ()));
+            let mut other = dims;
+            other.reverse();
+            let z2 = call!(cx, "new", Tensor::<(), D>::new(other, ()));
+            let mut longer = dims;
+            longer[0] += 1;
+            let z3 = call!(cx, "new", Tensor::<(), D>::new(longer, ()));
+            cx.rep.inc("eq_zero_sized_checks");
+            let same = call!(cx, "eq", z == z2);
+            let grown = call!(cx, "eq", z == z3);
+            if (same && other != dims) || grown {
+                cx.viol("eq_ignores_shape", Json::obj().set("what", "tensors of zero-sized elements with different shapes compare equal").set("shape_a", dims.to_vec()).set("shape_b", other.to_vec()).set("a==reversed", same).set("a==longer", grown));
+            }
+        }
+        // iter() / into_iter() driven from both ends
+        {
+            let mut r = Rng::new(common::mix(&[0x7e52, len as u64, D as u64]));
+            if let Err(e) = common::iter_protocol_de(a.iter().cloned(), &data, &mut r, 8) {
+                cx.viol("iter_double_ended", Json::obj().set("what", "iter() driven from both ends is not the row-major data").set("script", e));
+            }
+            if let Err(e) = common::iter_protocol_de(a.clone().into_iter(), &data, &mut r, 8) {
+                cx.viol("into_iter_double_ended", Json::obj().set("what", "into_iter() driven from both ends is not the row-major data").set("script", e));
+            }
         }
         // any single-element difference
         for j in 0..len {
